@@ -183,6 +183,37 @@ class Config:
             rows.append((name, pieces))
         return rows
 
+    def ranks(self):
+        """rank of every nonterminal = 1 + max rank of the nonterminals on its right-hand sides (0 for none);
+        [] when the grammar is recursive (arm/thumb register lists)."""
+        rows = self.grammar_rows()
+        deps = {}
+        for lhs, rhs, _p in rows:
+            deps.setdefault(lhs, set()).update(s[1] for s in rhs if s[0] == "nt")
+        for d in list(deps.values()):
+            for n in d:
+                deps.setdefault(n, set())
+        rank, state = {}, {}
+
+        def visit(n):
+            if state.get(n) == 1:
+                raise RecursionError(n)
+            if n in rank:
+                return rank[n]
+            state[n] = 1
+            r = 0
+            for m in sorted(deps[n]):
+                r = max(r, visit(m) + 1)
+            state[n] = 2
+            rank[n] = r
+            return r
+        try:
+            for n in sorted(deps):
+                visit(n)
+        except RecursionError:
+            return []
+        return sorted(rank.items())
+
     def grammar_rows(self):
         g = self.asm.parser.g
         rows = []
@@ -279,7 +310,8 @@ def render_config(cfg):
     for lhs, rhs, prio in cfg.grammar_rows():
         prods.append("  ⟨" + lstr(lhs) + ", " + llist([lean_sym(s) for s in rhs]) + ", " + str(prio) + "⟩")
     out.append("def grammar : List Prod := [\n" + ",\n".join(prods) + "]\n")
-    out.append(f"def config : Config := ⟨{lstr(key)}, keywords, regClasses, syntaxes, grammar⟩\n")
+    out.append("def ranks : List (String × Nat) := " + llist([f"({lstr(n)}, {r})" for n, r in cfg.ranks()]) + "\n")
+    out.append(f"def config : Config := ⟨{lstr(key)}, keywords, regClasses, syntaxes, grammar, ranks⟩\n")
     out.append(f"end Gen.Asm_{key}\n")
     return "\n".join(out)
 
